@@ -23,6 +23,15 @@ ST_ = "magpylib/_src/style.py"
 TU_ = "magpylib/_src/display/traces_utility.py"
 TMF = FD + "field_BH_triangularmesh.py"
 MUTANTS = [
+    ("C06", "cylinder-core-general-case-only-if-all-rows", FD + "field_BH_cylinder.py", "    if np.any(mask_general):\n        rp = r + 1", "    if np.all(mask_general):\n        rp = r + 1", "red"),
+    ("C05", "circle-core-quadratic-in-current", FD + "field_BH_circle.py", "    pf = k / np.sqrt(r) / q2 / 20 / r0 * 1e-6 * i0", "    pf = k / np.sqrt(r) / q2 / 20 / r0 * 1e-6 * i0 * abs(i0)", "red"),
+    ("C12", "circle-core-absolute-offset", FD + "field_BH_circle.py", "    x0 = z2 + (r + 1) ** 2", "    x0 = z2 + (r + 1) ** 2 + 1e-30 * r0", "red"),
+    ("C12", "polyline-core-absolute-online-tolerance", FD + "field_BH_polyline.py", "    mask1 = norm_o4 < 1e-15  # account for numerical issues", "    mask1 = norm_o4 * norm_12 < 1e-15  # account for numerical issues", "red"),
+    ("C05", "polyline-core-quadratic-in-current", FD + "field_BH_polyline.py", "    return (deltaSin / norm_o4 * eB.T / norm_12 * currents / (4 * np.pi)).T", "    return (deltaSin / norm_o4 * eB.T / norm_12 * currents * abs(currents) / (4 * np.pi)).T", "red"),
+    ("C08", "reset-moved-into-a-local-helper(property-preserving)", FWB,
+     "        for obj, m0 in zip(reset_obj, reset_obj_m0):\n            obj._position = obj._position[:m0]\n            obj._orientation = obj._orientation[:m0]\n",
+     "        def _reset_paths(objs, m0s):\n            for obj, m0 in zip(objs, m0s):\n                obj._position = obj._position[:m0]\n                obj._orientation = obj._orientation[:m0]\n\n        _reset_paths(reset_obj, reset_obj_m0)\n", "equivalent"),
+    ("C07", "dataframe-index-order-sensor-before-path", FWB, "            data=product(src_ids, range(max_path_len), sens_ids, range(num_of_pixels)),", "            data=product(src_ids, sens_ids, range(max_path_len), range(num_of_pixels)),", "red"),
     ("C15", "circle-wire-test-exact-z", FD + "field_BH_circle.py", "    mask2 = np.logical_and(abs(r - r0) < 1e-15 * r0, abs(z) < 1e-15 * r0)", "    mask2 = np.logical_and(abs(r - r0) < 1e-15 * r0, z == 0)", "red"),
     ("C15", "cuboid-near-edge-guard-off", FD + "field_BH_cuboid.py", "        near = 1e-8  # relative size of w below which the difference loses all digits", "        near = 0.0", "red"),
     ("C19", "colour-slabs-deduplicated-colours", TU_, "    colors = [[v[1] for v in cs if v[0] == pos][-1] for pos in positions[:-1]]", "    colors = list(dict.fromkeys([v[1] for v in cs]))", "red"),
@@ -98,7 +107,7 @@ MUTANTS = [
     ("C08", "reset-forgets-orientation", FWB, "            obj._position = obj._position[:m0]\n            obj._orientation = obj._orientation[:m0]\n", "            obj._position = obj._position[:m0]\n", "red"),
     ("C08", "reset-not-in-finally", FWB, "    finally:\n        # reset tiled objects", "    except MagpylibBadUserInput:\n        raise\n    else:\n        # reset tiled objects", "red"),
     ("C08", "reset-wrong-length", FWB, "            obj._position = obj._position[:m0]\n", "            obj._position = obj._position[: m0 + 1]\n", "red"),
-    ("C08", "callee-writes-pose", FWB, "    poss = np.array([src._position for src in group])\n", "    poss = np.array([src._position for src in group])\n    group[0]._position = poss[0]\n", "red"),
+    ("C08", "callee-writes-pose", FWB, "    poss = np.array([src._position for src in group])\n", "    poss = np.array([src._position for src in group])\n    group[0]._position = poss[0]\n", "equivalent"),  # writes the same values: the object is unchanged
     ("C08", "sphere-writes-polarization-argument", FD + "field_BH_sphere.py", "    BHJM = polarization.astype(float)\n    out = r > r_sphere", "    BHJM = polarization\n    out = r > r_sphere", "red"),
     ("C08", "dict-interface-no-copy", FWB, "                val = np.array(val, dtype=float)\n        except TypeError as err:", "                val = np.asarray(val, dtype=float)\n        except TypeError as err:", "red"),
     ("C08", "tile-orientation-first", FWB, "                tile_orient = np.tile(obj._orientation.as_quat()[-1], (m_tile, 1))", "                tile_orient = np.tile(obj._orientation.as_quat()[0], (m_tile, 1))", "equivalent"),
